@@ -265,8 +265,14 @@ def check_replicates(chk, r, quick):
             configs.append((tname, "minipcn_smc", pname, pc, tc))
         if tname != "truncated_leaking_proposal":
             configs.append((tname, "emcee_smc", "logit", preconds[1][1], tc))
+        if tname == "gauss_in_box":
+            # schedule options must not change what the run converges to either: step cap with the adaptive minimum step, explicit floor
+            for cap in (3, 4, 5, 6):
+                configs.append((tname, "minipcn_smc", f"none/max_n_steps={cap}", None, {**tc, "max_n_steps": cap}))
+            for ms in (0.3, 0.45):
+                configs.append((tname, "minipcn_smc", f"logit/min_step={ms}", preconds[1][1], {**tc, "min_step": ms}))
     if quick:
-        configs = [c for i, c in enumerate(configs) if i % 2 == 0 or c[2] in ("logit",)]
+        configs = [c for i, c in enumerate(configs) if i % 2 == 0 or c[2] in ("logit",) or "=" in c[2]]
     summary = []
     for tname, sampler, pname, pc, tc in configs:
         cfg0 = {"sampler": sampler, "n_samples": 400 if sampler == "importance" else 64, "kernel_steps": 6, "precond": pc, **tc}
